@@ -24,20 +24,80 @@ func runsAtInstall(hooks []hx.HookSpec) bool {
 	return true
 }
 
-// config builds the search for one (hook set, initial cluster).
-func config(tier string, hooks []hx.HookSpec, init string, drivers []string, depthCap int) *opspace.Config {
-	thorough := tier == "thorough"
-	c1, c2 := charts(hooks)
-	hookCall := func(label string) string {
-		for _, h := range hooks {
-			if label == "POST "+resourceOfKind[h.Kind]+"/"+h.Name {
-				return "reject"
-			}
-			if label == "wait:WatchUntilReady "+h.Name {
-				return "wait-fail"
-			}
+// probes: the --atomic + hooks-disabled probes are run for the hook sets with one
+// hook and for the three-hook sets that mix pre and post hooks (the clause "no hook
+// request at all" does not depend on how several hooks interact).
+func probes(hooks []hx.HookSpec) bool {
+	if len(hooks) == 1 {
+		return true
+	}
+	pre, post := false, false
+	for _, h := range hooks {
+		for _, e := range h.Events {
+			pre = pre || strings.HasPrefix(e, "pre-")
+			post = post || strings.HasPrefix(e, "post-")
 		}
-		return ""
+	}
+	return len(hooks) == 3 && pre && post
+}
+
+// oneCase is one (hook set, initial cluster) of the run.
+type oneCase struct {
+	hooks    []hx.HookSpec
+	init     string // "clean" | "stale:Kind/name+..."
+	depthCap int
+	filler   bool // one cheap unit of work that only shifts the shard assignment
+}
+
+// cur is the case being explored. opspace explores one initial state completely
+// before it builds the next one and is single-threaded, so MakeInit can publish
+// the case for Alphabet and FaultKinds (which are not told the initial state).
+var cur struct {
+	oneCase
+	driver string
+}
+
+// markCtx, when set, receives a mark (the history about to be extended) so that
+// a worker that does not come back can be attributed to a case.
+var markCtx *core.Ctx
+
+// initName strips the case index from an opspace init string "clean#123".
+func initName(init string) string {
+	if i := strings.Index(init, "#"); i >= 0 {
+		return init[:i]
+	}
+	return init
+}
+
+func maxDepthOf(cs oneCase) int {
+	d := 4
+	if cs.init != "clean" && runsAtInstall(cs.hooks) {
+		// the stale object is consumed (deleted or collided with) by the first
+		// operation; later operations meet the objects hooks themselves leave behind
+		d = 1
+	}
+	if cs.depthCap > 0 && cs.depthCap < d {
+		d = cs.depthCap
+	}
+	return d
+}
+
+// config builds the search over all cases as ONE opspace run (opspace does
+// per-run work such as the simulator self-check). For a replay, cases is nil
+// and replayHooks names the hook set.
+func config(tier string, cases []oneCase, replayHooks []hx.HookSpec, drivers []string) *opspace.Config {
+	thorough := tier == "thorough"
+	caseOf := func(init string) oneCase {
+		if i := strings.Index(init, "#"); i >= 0 && cases != nil {
+			var n int
+			fmt.Sscan(init[i+1:], &n)
+			return cases[n]
+		}
+		return oneCase{hooks: replayHooks, init: initName(init)}
+	}
+	var inits []string
+	for i, cs := range cases {
+		inits = append(inits, fmt.Sprintf("%s#%d", cs.init, i))
 	}
 	both := func(ops ...hx.Op) []opspace.Step {
 		var out []opspace.Step
@@ -50,53 +110,111 @@ func config(tier string, hooks []hx.HookSpec, init string, drivers []string, dep
 		}
 		return out
 	}
-	maxDepth := 4
-	if init != "clean" && runsAtInstall(hooks) {
-		// the stale object is consumed (deleted or collided with) by the first
-		// operation; later operations meet the objects hooks themselves leave behind
-		maxDepth = 1
-	}
-	if depthCap > 0 && depthCap < maxDepth {
-		maxDepth = depthCap
-	}
 	// uninstall appears in two spellings everywhere: purge, and --keep-history
 	unX, unK := hx.Op{Kind: "uninstall"}, hx.Op{Kind: "uninstall", KeepHistory: true}
-	return &opspace.Config{
+	cfg := &opspace.Config{
 		Property: prop,
 		Drivers:  drivers,
-		Inits:    []string{init},
-		MakeInit: makeInit,
-		MaxDepth: maxDepth, MaxFaulty: 1,
+		Inits:    inits,
+		MakeInit: func(drv, init string) *hx.World {
+			cur.oneCase, cur.driver = caseOf(init), drv
+			return makeInit(drv, initName(init))
+		},
+		MaxDepth: 4, MaxFaulty: 1,
+		DepthFor: func(init string) int { return maxDepthOf(caseOf(init)) },
 		FaultKinds: func(_ string, op hx.Op, call sim.Call) []string {
-			if k := hookCall(call.Label); k != "" && !op.DisableHooks {
-				return []string{k}
+			if op.Atomic && op.DisableHooks {
+				// probe for the hooks-disabled clause on the operations Helm starts on its
+				// own: the release resources never become ready, so --atomic rolls the
+				// upgrade back / uninstalls the install; no hook may be touched
+				if call.Label == "wait:Wait" && call.Occurrence == 0 {
+					return []string{"wait-fail"}
+				}
+				return nil
+			}
+			if op.DisableHooks {
+				return nil
+			}
+			for _, h := range cur.hooks {
+				if call.Label == "POST "+resourceOfKind[h.Kind]+"/"+h.Name {
+					return []string{"reject"}
+				}
+				if call.Label == "wait:WatchUntilReady "+h.Name {
+					return []string{"wait-fail"}
+				}
 			}
 			return nil
 		},
 		Alphabet: func(_ *hx.World, _ []*rspb.Release, path []opspace.Step) []opspace.Step {
+			init, hooks := cur.init, cur.hooks
+			c1, c2 := charts(hooks)
+			if cur.filler {
+				if len(path) == 0 {
+					return []opspace.Step{{Env: &opspace.EnvStep{Kind: "delete", Path: "/filler"}}}
+				}
+				return nil
+			}
+			mark(path)
 			if len(path) == 0 {
-				return both(hx.Op{Kind: "install", Chart: c1})
+				first := both(hx.Op{Kind: "install", Chart: c1})
+				if init == "clean" && probes(hooks) {
+					first = append(first, opspace.Step{Op: hx.Op{Kind: "install", Chart: c1, Atomic: true, DisableHooks: true}})
+				}
+				return first
 			}
 			last := path[len(path)-1]
 			if last.Op.DisableHooks || last.Op.Kind == "uninstall" {
 				return nil // hooks-disabled steps and uninstall end a history
 			}
-			if r, _, _ := model(init, hooks, path); r.Failed {
-				// after a failed operation (injected or natural conflict): thorough
-				// looks at the uninstall that cleans up, quick stops
-				if thorough {
-					return []opspace.Step{{Op: unX}, {Op: unK}}
+			r, _, failures := model(init, hooks, path)
+			if r.Failed {
+				// after a failed operation (injected fault or natural conflict)
+				if failures > 1 {
+					return nil
 				}
-				return nil
+				var out []opspace.Step
+				if last.Op.Kind == "upgrade" {
+					// the usual reaction to a failed upgrade: roll back. The rollback runs the
+					// hooks stored with the target revision (their recorded run state included)
+					// against whatever the failed upgrade left in the cluster.
+					out = append(out, opspace.Step{Op: hx.Op{Kind: "rollback"}})
+				}
+				if thorough {
+					out = append(out, opspace.Step{Op: unX})
+				}
+				return out
+			}
+			if failures > 0 {
+				return nil // the rollback after a failed upgrade ends the history
+			}
+			upgrades := 0
+			for _, st := range path {
+				if st.Op.Kind == "upgrade" {
+					upgrades++
+				}
 			}
 			switch last.Op.Kind {
 			case "install":
-				return both(hx.Op{Kind: "upgrade", Chart: c2}, unX, unK)
-			case "upgrade":
-				if thorough {
-					return both(hx.Op{Kind: "rollback"}, unX, unK)
+				out := both(hx.Op{Kind: "upgrade", Chart: c2}, unX, unK)
+				if probes(hooks) {
+					out = append(out, opspace.Step{Op: hx.Op{Kind: "upgrade", Chart: c2, Atomic: true, DisableHooks: true}})
 				}
-				return both(hx.Op{Kind: "rollback"})
+				return out
+			case "upgrade":
+				if upgrades == 2 {
+					return []opspace.Step{{Op: hx.Op{Kind: "rollback"}}}
+				}
+				out := both(hx.Op{Kind: "rollback"})
+				if thorough {
+					out = both(hx.Op{Kind: "rollback"}, unX, unK)
+				}
+				if !runsAtInstall(hooks) {
+					// hooks that do not run at install have no recorded run in revision 1:
+					// a second upgrade (back to chart c-1) gives "earlier upgrade succeeded,
+					// later upgrade failed, roll back to the earlier one"
+					out = append(out, opspace.Step{Op: hx.Op{Kind: "upgrade", Chart: c1}})
+				}
+				return out
 			case "rollback":
 				return both(unX, unK)
 			}
@@ -105,10 +223,11 @@ func config(tier string, hooks []hx.HookSpec, init string, drivers []string, dep
 		Check: check,
 		Expand: func(t *opspace.Transition) bool {
 			// do not search on from a transition that contradicts the model
-			r, _, _ := model(t.Init, hooks, t.Path)
+			r, _, _ := model(t.Init, hooksOfPath(t.Path), t.Path)
 			return t != lastBad && r.Failed == t.Res.Failed
 		},
 	}
+	return cfg
 }
 
 func run(c *core.Ctx) {
@@ -119,6 +238,8 @@ func run(c *core.Ctx) {
 		drivers = []string{"memory", "secrets"}
 	}
 	perFamily := map[string]int{}
+	var cases []oneCase
+	fillers := 0
 	for _, hs := range sets {
 		if c.Only != "" && !has(strings.Split(c.Only, ","), hs.Family) {
 			continue // --only F1,F2: debugging aid, restricts the run to some families
@@ -129,16 +250,26 @@ func run(c *core.Ctx) {
 			inits = append(inits, staleInits(hs)...)
 		}
 		for _, init := range inits {
-			config(c.Tier, hs.Hooks, init, drivers, hs.DepthCap).Run(c)
+			cases = append(cases, oneCase{hooks: hs.Hooks, init: init, depthCap: hs.DepthCap})
 		}
-		// opspace takes one unit of work per (driver, init, first step): an even
-		// number per hook set, the heavy one (clean cluster, hooks on) always first.
-		// One skipped unit per hook set makes the period odd, so the heavy units
-		// spread over all shards instead of landing on the even ones.
-		c.NextMine()
+		// opspace takes one unit of work per (driver, init, first step), the heavy one
+		// (clean cluster, hooks on) first. With an even number of units per hook set the
+		// heavy units would land on a few shards only; a filler case (one no-op
+		// environment step, no Helm operation) makes the period odd.
+		units := 2 * len(inits)
+		if probes(hs.Hooks) {
+			units++
+		}
+		if units%2 == 0 {
+			cases = append(cases, oneCase{filler: true, init: "clean"})
+			fillers++
+		}
 	}
+	markCtx = c
+	config(c.Tier, cases, nil, drivers).Run(c)
+	markCtx = nil
 	var fam []string
-	for _, f := range []string{"F1", "F1b", "F1e", "F2", "F3m", "F3p", "F3o", "Fw2", "Fw3", "F2e"} {
+	for _, f := range []string{"F1", "F1b", "F1e", "F1r", "F2", "F3m", "F3p", "F3o", "Fw2", "Fw3", "F2e"} {
 		if perFamily[f] > 0 {
 			fam = append(fam, fmt.Sprintf("%s=%d", f, perFamily[f]))
 		}
@@ -146,19 +277,29 @@ func run(c *core.Ctx) {
 	c.Bound("hook_sets", fmt.Sprintf("%d (%s)", len(sets), strings.Join(fam, " ")))
 	c.Bound("hooks_per_set", "<=3")
 	c.Bound("max_depth", "4 operations (1 when the initial cluster holds a stale hook object and every hook is attached to an install event)")
-	c.Bound("initial_clusters", "clean; one stale object per hook; all hooks stale (Fw2, Fw3: clean only)")
-	c.Bound("histories", "install -> {upgrade -> {rollback -> U"+map[bool]string{true: " | U", false: ""}[thorough]+"} | U}, U = uninstall | uninstall --keep-history; every step also with hooks disabled (terminal)"+
-		map[bool]string{true: "; U after every failed step; Fw3: first two operations only", false: "; a failed step ends the history; Fw3: first operation only"}[thorough])
-	c.Bound("faults", "each hook create request rejected, each hook WatchUntilReady failing; at most one per history")
+	c.Bound("filler_units", fmt.Sprintf("%d no-op units per driver (counted as transitions) that only balance the shards", fillers))
+	c.Bound("initial_clusters", fmt.Sprintf("%d (hook set, initial cluster) pairs: clean; one stale object per hook; all hooks stale (Fw2, Fw3: clean only)", len(cases)-fillers))
+	c.Bound("histories", "install -> {upgrade -> {rollback -> U"+map[bool]string{true: " | U", false: ""}[thorough]+"} | U}, U = uninstall | uninstall --keep-history; every step also with hooks disabled (terminal); "+
+		"failed upgrade -> rollback; hook sets not running at install: install -> upgrade -> upgrade(c-1) -> rollback; install/upgrade --atomic --no-hooks with the readiness wait failing"+
+		map[bool]string{true: "; uninstall after every failed step; Fw3: first two operations only", false: "; any other failed step ends the history; Fw3: first operation only"}[thorough])
+	c.Bound("faults", "each hook create request rejected, each hook WatchUntilReady failing; at most one per history; plus the readiness wait of install/upgrade --atomic --no-hooks")
 	c.Bound("drivers", strings.Join(drivers, ","))
 	c.SetExtra("reading", "a hook whose creation is refused never existed (no policy deletion expected for it); earlier hooks of the event that succeeded are deleted when their policy has hook-succeeded")
 }
+
+// ---------- replay, marks, workers that do not come back ----------
 
 type replayData struct {
 	opspace.Replay
 	Key  string `json:"key"`
 	Tier string `json:"tier"`
+	// Hang: the worker died or was killed by the watchdog while extending Path;
+	// Hooks names the hook set (the path may still be empty).
+	Hang  bool          `json:"hang,omitempty"`
+	Hooks []hx.HookSpec `json:"hooks,omitempty"`
 }
+
+const hangKey = "no-return|operation-did-not-return-or-worker-died"
 
 func hooksOfPath(path []opspace.Step) []hx.HookSpec {
 	for _, st := range path {
@@ -166,7 +307,55 @@ func hooksOfPath(path []opspace.Step) []hx.HookSpec {
 			return st.Op.Chart.Hooks
 		}
 	}
-	return nil
+	return cur.hooks
+}
+
+// slim drops the chart bodies from a path (marks are limited to 8 KB); fat puts them back.
+func slim(path []opspace.Step) []opspace.Step {
+	out := append([]opspace.Step{}, path...)
+	for i := range out {
+		if out[i].Op.Chart != nil {
+			out[i].Op.Chart = &hx.ChartSpec{Version: out[i].Op.Chart.Version}
+		}
+	}
+	return out
+}
+
+func fat(path []opspace.Step, hooks []hx.HookSpec) []opspace.Step {
+	c1, c2 := charts(hooks)
+	out := append([]opspace.Step{}, path...)
+	for i := range out {
+		if out[i].Op.Chart != nil {
+			if out[i].Op.Chart.Version == "2" {
+				out[i].Op.Chart = c2
+			} else {
+				out[i].Op.Chart = c1
+			}
+		}
+	}
+	return out
+}
+
+func mark(path []opspace.Step) {
+	if markCtx == nil {
+		return
+	}
+	b, _ := json.Marshal(replayData{Replay: opspace.Replay{Driver: cur.driver, Init: cur.init, Path: slim(path)}, Key: hangKey, Tier: markCtx.Tier, Hang: true, Hooks: cur.hooks})
+	markCtx.Mark(string(b))
+}
+
+// crashViolation turns a worker that died or was killed by the watchdog into a
+// violation of its own key; the runner confirms it by replaying the marked
+// history with every extension (a replay that returns normally is reported as
+// harness nondeterminism and the run as not exhaustive - never as clean).
+func crashViolation(mark string, stderr string) *core.Violation {
+	var rd replayData
+	if json.Unmarshal([]byte(mark), &rd) != nil || !rd.Hang {
+		return nil
+	}
+	return &core.Violation{Property: prop, Key: hangKey, Replay: json.RawMessage(mark),
+		What: fmt.Sprintf("a worker did not come back while extending history %v of hook set %v (driver=%s init=%s): an operation under test does not return, or the worker died: %s",
+			opspace.PathStrings(rd.Path), rd.Hooks, rd.Driver, rd.Init, strings.Join(strings.Fields(stderr), " "))}
 }
 
 func replay(c *core.Ctx, data json.RawMessage) []core.Violation {
@@ -174,6 +363,27 @@ func replay(c *core.Ctx, data json.RawMessage) []core.Violation {
 	if err := json.Unmarshal(data, &rd); err != nil {
 		return nil
 	}
-	config(rd.Tier, hooksOfPath(rd.Path), rd.Init, []string{rd.Driver}, 0).ReplayPath(c, rd.Replay)
-	return core.FilterKey(c.TakeViolations(), rd.Key)
+	if !rd.Hang {
+		config(rd.Tier, nil, hooksOfPath(rd.Path), []string{rd.Driver}).ReplayPath(c, rd.Replay)
+		return core.FilterKey(c.TakeViolations(), rd.Key)
+	}
+	// re-run the marked history with every extension the explorer would have tried
+	cfg := config(rd.Tier, nil, rd.Hooks, []string{rd.Driver})
+	prefix := fat(rd.Path, rd.Hooks)
+	w := cfg.MakeInit(rd.Driver, rd.Init)
+	for _, t := range cfg.ReplayPath(c, opspace.Replay{Driver: rd.Driver, Init: rd.Init, Path: prefix}) {
+		w = t.Post
+	}
+	for _, st := range cfg.Alphabet(w, nil, prefix) {
+		ts := cfg.ReplayPath(c, opspace.Replay{Driver: rd.Driver, Init: rd.Init, Path: append(append([]opspace.Step{}, prefix...), st)})
+		for _, call := range ts[len(ts)-1].Res.Calls {
+			for _, kind := range cfg.FaultKinds(rd.Driver, st.Op, call) {
+				fs := st
+				fs.Fault = &sim.Fault{Label: call.Label, Occurrence: call.Occurrence, Kind: kind}
+				cfg.ReplayPath(c, opspace.Replay{Driver: rd.Driver, Init: rd.Init, Path: append(append([]opspace.Step{}, prefix...), fs)})
+			}
+		}
+	}
+	c.TakeViolations()
+	return nil // everything returned: the death of the worker is not reproduced
 }
